@@ -48,6 +48,18 @@ def rejected (s : String) : Bool :=
   | .error .formula => true
   | _ => false
 
+/-- **a binary operator (or `%`) without a left operand is rejected, wherever it stands**: in every
+state whose previous token is an opening parenthesis, a separator or an operator, an operator token
+other than `+`/`-` (which become signs) and the range operators ends parsing with the formula-syntax
+error, whatever follows (`fix:` commit: `=SUM(1,*2)` was read as `SUM(1*2)`) -/
+theorem missing_left_operand_rejected (name : String)
+    (hn : name ≠ "+" ∧ name ≠ "-" ∧ name ≠ " " ∧ name ≠ "," ∧ name ≠ ":")
+    (s : PState) (h : s.prev = .lparen ∨ s.prev = .sep ∨ s.prev = .opr) (rest : List Tok) :
+    runToks (.opr name :: rest) s = .error .formula := by
+  have h1 : ¬ (s.prev = .operand ∨ s.prev = .rparen ∨ s.prev = .percent) := by
+    rcases h with h | h | h <;> simp [h]
+  simp [runToks, step, hn, h1]
+
 /-- instances of the malformed classes the property names: each is rejected -/
 theorem malformed_rejected :
     -- unbalanced or misplaced parentheses / braces
@@ -55,6 +67,7 @@ theorem malformed_rejected :
     rejected "=SUM({1,2)}" ∧ rejected "={1,(2},3)" ∧
     -- missing operand
     rejected "=1+" ∧ rejected "=*1" ∧ rejected "=()" ∧ rejected "=SUM(1,%)" ∧ rejected "=1+*2" ∧
+    rejected "=SUM(1,*2)" ∧ rejected "=IF(1,^2,3)" ∧ rejected "=SUM(1,&2)" ∧ rejected "=SUM(1,=2)" ∧ rejected "=SUM(1,<>2)" ∧
     -- adjacent operands
     rejected "=1 2" ∧ rejected "=(1)2" ∧ rejected "=(1)(2)" ∧ rejected "=\"a\"1" ∧ rejected "=SUM(1 SUM(2))" ∧
     rejected "=SUM(1{2})" ∧ rejected "=(A1)B1" ∧
